@@ -1146,6 +1146,7 @@ type FBudget struct {
 	Reps              int // extra schedules per generated case
 	Exh               int // base cases whose every single fault placement is run (x ExhReps schedules)
 	ExhReps           int
+	Exh2              int // base cases (<= 5 reachable nodes) whose every PAIR of error placements is run (capped per base)
 }
 
 const FRule = "distinct (graph, API, root, initial destination, K, stores, fault plan) in which at least one fault or cancellation fired and the call's roots reach >= 3 nodes"
@@ -1352,6 +1353,41 @@ func DriveF(run *common.Run, b FBudget) {
 				one(&c2)
 			}
 		}
+	}
+	for i, tries := 0, 0; i < b.Exh2 && tries < 50*b.Exh2; tries++ {
+		base := GenerateF(rootRand.U64(), "exh", run.Thorough())
+		g := dag.Decode(base.Graph)
+		nreach := map[int]bool{}
+		for _, rt := range FRoots(base, g) {
+			for k := range g.Reach(rt) {
+				nreach[k] = true
+			}
+		}
+		if len(nreach) < 3 || len(nreach) > 5 {
+			continue
+		}
+		i++
+		var pls []Fault
+		for _, pl := range allPlacements(base, g) {
+			if !pl.Cancel {
+				pls = append(pls, pl)
+			}
+		}
+		n := 0
+		for a := 0; a < len(pls) && n < 1500; a++ {
+			for bb := a + 1; bb < len(pls) && n < 1500; bb++ {
+				if pls[a].Node == pls[bb].Node && pls[a].Op == pls[bb].Op {
+					continue
+				}
+				c2 := *base
+				c2.Faults, c2.PreCancel = []Fault{pls[a], pls[bb]}, false
+				c2.Sched = T != nil && n%2 == 1
+				c2.Seed = base.Seed + uint64(n)*104729
+				one(&c2)
+				n++
+			}
+		}
+		run.Extra["exhaustive_double_placements"] = maxInt(run.Extra["exhaustive_double_placements"], 0) + n
 	}
 	os.Remove(currentCasePath(run.Dir))
 }
